@@ -845,7 +845,7 @@ for cls, tag, fn in (('ResidualVQ', 'rvq', RVQ), ('ResidualFSQ', 'rfsq', RFSQ), 
 # writes THROUGH view handles: an in-place write whose target is a reshape / flatten / view / rearrange ... expression (or a name bound to one) lands
 # in a throw-away copy whenever that call cannot return a view (a dense permuted input: round-6 seeds C04-f, C05-f, C06-f, C09-f, C10-f).  The
 # inventory lists every such statement of the package; it is pinned, so a new one is an obligation to look at.
-_VIEW_CALLS = {'reshape', 'flatten', 'view', 'rearrange', 'permute', 'transpose', 'expand', 'unflatten', 'squeeze', 'unsqueeze', 'chunk', 'split', 'unbind', 'narrow', 'movedim', 'contiguous'}
+_VIEW_CALLS = {'reshape', 'flatten', 'view', 'rearrange', 'permute', 'transpose', 't', 'float', 'to', 'type', 'expand', 'unflatten', 'squeeze', 'unsqueeze', 'chunk', 'split', 'unbind', 'narrow', 'movedim', 'contiguous'}
 
 
 def _view_call_in(e):
